@@ -6,6 +6,7 @@
  */
 #include "util/threadpool.h"
 #include "util/util.h"
+#include "util/verif_hooks.h"
 
 #include <stdlib.h>
 #include <string.h>
@@ -250,6 +251,7 @@ static int submit(thread_pool_t *interface, void *ptr)
 		if (done == NULL)
 			break;
 
+		VERIF_PROBE("pool_submit_drained_done_item");
 		if (pool->safe_done_last == NULL) {
 			pool->safe_done = done;
 		} else {
@@ -302,6 +304,7 @@ static void *dequeue(thread_pool_t *interface)
 			if (pool->status != 0)
 				break;
 
+			VERIF_PROBE("pool_dequeue_waited");
 			pthread_cond_wait(&pool->done_cond, &pool->mtx);
 		}
 		pthread_mutex_unlock(&pool->mtx);
